@@ -60,10 +60,10 @@ theorem inv_t (c : Cfg) (k : Nat) (hI : Inv c) (hg : okStep c (k + 1) = true) : 
   · rename_i hpc
     simp only [okStep, hpc] at hg
     split
-    · exact hI
     · rename_i hs
       simp only [Bool.and_eq_true, Option.isNone_iff_eq_none] at hg
-      exact inv_rSpin c hI k hpc hg.1 hg.2 hs
+      exact inv_rSpin c hI k hpc hg.1 hg.2 (by simp [hs])
+    · exact hI
   · rename_i hpc; exact inv_rBeh c hI k hpc
   · rename_i hpc; exact inv_rPreB c hI k hpc
   · rename_i hpc; exact inv_rPreE c hI k hpc
